@@ -177,6 +177,7 @@ func flagClass(f BalFlags) string {
 }
 
 func runC02(c *Ctx) {
+	runC02Text(c)
 	n := c.N(5000, 40000)
 	cases := genBalCases(c, "balance", n, func(r *RNG) JGenOpts {
 		return JGenOpts{MaxAccounts: r.Range(2, 8), MaxDays: r.Range(1, 8), Unicode: true, BaseDay: 737000 + r.Intn(1500), SpanDays: Pick(r, []int{0, 5, 40, 100, 400, 800}), BoundaryDates: r.Chance(1, 8),
@@ -227,5 +228,469 @@ func runC02(c *Ctx) {
 			}
 			c.Monitor("balance", bc.Idx, "report_equals_ledger", in, ok, detail)
 		}, "balance-spec", bc.F.Wire(today()), bc.J.Wire())
+	}
+}
+
+// ---------------------------------------------------------------- stream baltext: journals as TEXT over several files
+//
+// The balance stream above sends the structured journal to the model, so it can only hold what the structured generator can
+// express: every directive converts (dates exist, accounts carry an account type, @accrue windows are ordered), and everything
+// sits in one file.  This stream works on the text: a generated (well-formed) journal is spread over a main file and 0-5
+// included files (chunks or interleaved, include trees with sub-directories, include lines first / last / in between), and in
+// most cases ONE directive of the text gets a fault which the parser lets through but the conversion to the model
+// (model.ParseDirective: Date.Parse, Decimal.Parse, the account registry, transaction.Create with its @accrue expansion) must
+// reject - or, more rarely, a syntax error, an include that cannot be read, an include cycle.  The fault sits in any kind of
+// directive (transaction, open, close, price, assertion), in the main file or an included one, first / last / anywhere in its file.
+// (Seeded change C02-g lost the error of transaction.Create: the transaction was dropped, `knut balance` exited 0 and printed a
+// report without its bookings.)
+//   compare  c02text       real outcome against the pipeline model on the parsed text (Lean parser + FromSyntax + BalanceCmd.run)
+//   monitor  report_equals_ledger            real outcome against the ledger specification on the parsed text (rejects included)
+//   monitor  accepted_report_has_all_bookings  independent of the text model: whenever the command exits 0, its report is the
+//            ledger of ALL directives written into the files (the generator's own journal, through the structured wire form)
+
+type c02File struct {
+	Path string // relative to the main file's directory
+	Text string
+}
+
+type c02TextCase struct {
+	Idx     int
+	J       *Journal
+	F       BalFlags
+	Files   []c02File
+	Fault   string // "none" | fault kind
+	DirKind string // kind of the faulted directive
+	Pos     string // first | last | mid | only (position of the faulted directive among the directives of its file)
+	InInc   bool   // the fault sits in an included file
+	Tags    []string
+	Code    int
+	Stdout  string
+	Stderr  string
+}
+
+func (tc *c02TextCase) Input() map[string]any {
+	files := make([]map[string]string, len(tc.Files))
+	for i, f := range tc.Files {
+		files[i] = map[string]string{"path": f.Path, "text": f.Text}
+	}
+	return map[string]any{"files": files, "args": strings.Join(tc.F.Args(), " ") + " main.knut", "fault": tc.Fault, "wire_flags": tc.F.Wire(today()), "wire_journal": tc.J.Wire()}
+}
+
+func (tc *c02TextCase) implOutcome() string {
+	switch {
+	case strings.Contains(tc.Stderr, "panic:") || strings.Contains(tc.Stderr, "goroutine "):
+		return "panic"
+	case tc.Code == 0:
+		return "ok " + Hex(canonTable(tc.Stdout))
+	case tc.Code == -2:
+		return "timeout"
+	case tc.Stdout != "":
+		return "error-after-output " + Hex(tc.Stdout) // a failing command prints no report
+	default:
+		return "error"
+	}
+}
+
+// digits of other scripts: unicode.IsDigit (the parser's test) accepts them, time.Parse and decimal.NewFromString do not
+func c02ForeignDigit(r *RNG, d byte) string {
+	base := Pick(r, []rune{0x0660, 0xFF10, 0x0966, 0x1D7CE})
+	return string(base + rune(d-'0'))
+}
+
+func c02ForeignDigitIn(r *RNG, s string) string {
+	var at []int
+	for i := 0; i < len(s); i++ {
+		if s[i] >= '0' && s[i] <= '9' {
+			at = append(at, i)
+		}
+	}
+	if len(at) == 0 {
+		return s
+	}
+	k := Pick(r, at)
+	return s[:k] + c02ForeignDigit(r, s[k]) + s[k+1:]
+}
+
+// c02BadDate: dddd-dd-dd (what the parser asks for) that is no date
+func c02BadDate(r *RNG, s string) string {
+	y := s[:4]
+	switch r.Intn(6) {
+	case 0:
+		return y + Pick(r, []string{"-02-30", "-02-31", "-04-31", "-06-31", "-09-31", "-11-31"})
+	case 1:
+		return Pick(r, []string{"2023", "2019", "2100", "1900", "2021"}) + "-02-29"
+	case 2:
+		return y + Pick(r, []string{"-13-01", "-00-15", "-99-99", "-20-20"})
+	case 3:
+		return s[:8] + Pick(r, []string{"00", "32", "99", "40"})
+	case 4:
+		return s[:5] + Pick(r, []string{"00", "13", "14"}) + s[7:]
+	default:
+		return c02ForeignDigitIn(r, s)
+	}
+}
+
+// c02BadAccount: parses as an account, but its first segment is no account type
+func c02BadAccount(r *RNG, a string) string {
+	segs := strings.Split(a, ":")
+	near := map[string][]string{"Assets": {"Asset", "assets", "ASSETS", "Aktiven", "Assets1"}, "Liabilities": {"Liability", "liabilities", "Liabilites"},
+		"Equity": {"Equities", "equity", "EQUITY"}, "Income": {"Incomes", "income", "Revenue"}, "Expenses": {"Expense", "expenses", "Expences"}}
+	switch r.Intn(4) {
+	case 0:
+		if len(segs) > 1 && !contains(typeNames, segs[1]) { // the type is missing
+			return strings.Join(segs[1:], ":")
+		}
+	case 1:
+		return "$" + Pick(r, []string{"acct", "bank", "Assets"}) // a macro account (import rules know them, journals do not)
+	case 2:
+		return Pick(r, []string{"X", "The", "0"}) + a
+	}
+	if alt, ok := near[segs[0]]; ok {
+		segs[0] = Pick(r, alt)
+	} else {
+		segs[0] = "No" + segs[0]
+	}
+	return strings.Join(segs, ":")
+}
+
+// c02Fault rewrites the text of one directive.  Model-level faults (syntaxLevel false) keep it parseable.
+func c02Fault(r *RNG, d JDir, syntaxLevel bool) (string, string) {
+	lines := strings.Split(strings.TrimSuffix(d.Text(), "\n"), "\n")
+	hdr := 0
+	if d.Kind == 't' {
+		if d.Accrual != nil {
+			hdr++
+		}
+		if d.Targets != nil {
+			hdr++
+		}
+	}
+	setTok := func(line, tok int, f func(string) string) {
+		ts := strings.Split(lines[line], " ")
+		ts[tok] = f(ts[tok])
+		lines[line] = strings.Join(ts, " ")
+	}
+	type opt struct {
+		kind string
+		do   func()
+	}
+	var opts []opt
+	add := func(kind string, do func()) { opts = append(opts, opt{kind, do}) }
+	if syntaxLevel {
+		add("syntax:short-date", func() { lines[hdr] = lines[hdr][:5] + lines[hdr][6:] })
+		add("syntax:token-missing", func() {
+			l := len(lines) - 1
+			if k := strings.LastIndex(lines[l], " "); k >= 0 {
+				lines[l] = lines[l][:k]
+			}
+		})
+		if d.Kind == 't' {
+			add("syntax:quote-missing", func() { lines[hdr] = lines[hdr][:11] + lines[hdr][12:] })
+			add("syntax:booking-comma", func() { l := len(lines) - 1; lines[l] = strings.Replace(lines[l], " ", ", ", 1) })
+		} else {
+			add("syntax:keyword", func() { setTok(0, 1, func(s string) string { return Pick(r, []string{"opn", "Open", "closed", "prize", "balanse", "bal"}) }) })
+		}
+	} else {
+		add("date", func() { lines[hdr] = c02BadDate(r, lines[hdr][:10]) + lines[hdr][10:] })
+		switch d.Kind {
+		case 'o', 'c':
+			add("account", func() { setTok(0, 2, func(s string) string { return c02BadAccount(r, s) }) })
+		case 'p':
+			add("number", func() { setTok(0, 3, func(s string) string { return c02ForeignDigitIn(r, s) }) })
+		case 'a':
+			l, t := 0, 2
+			if len(lines) > 1 {
+				l, t = r.Range(1, len(lines)-1), 0
+			}
+			add("account", func() { setTok(l, t, func(s string) string { return c02BadAccount(r, s) }) })
+			add("number", func() { setTok(l, t+1, func(s string) string { return c02ForeignDigitIn(r, s) }) })
+		case 't':
+			l := len(lines) - 1 - r.Intn(len(d.Bookings))
+			add("account", func() { setTok(l, 0, func(s string) string { return c02BadAccount(r, s) }) })
+			add("account", func() { setTok(l, 1, func(s string) string { return c02BadAccount(r, s) }) })
+			add("number", func() { setTok(l, 2, func(s string) string { return c02ForeignDigitIn(r, s) }) })
+			if d.Accrual != nil {
+				add("accrual-ends-before-start", func() {
+					setTok(0, 3, func(string) string { return fmtDate(d.Accrual.Start - Pick(r, []int{1, 2, 30, 31, 365, 400})) })
+				})
+				add("accrual-ends-before-start", func() {
+					setTok(0, 2, func(string) string { return fmtDate(d.Accrual.End + Pick(r, []int{1, 2, 30, 31, 365, 400})) })
+				})
+				add("accrual-date", func() { k := r.Range(2, 3); setTok(0, k, func(s string) string { return c02BadDate(r, s) }) })
+				add("accrual-account", func() { setTok(0, 4, func(s string) string { return c02BadAccount(r, s) }) })
+			}
+		}
+	}
+	o := Pick(r, opts)
+	if !syntaxLevel && d.Accrual != nil && r.Bool() { // half of the faults of an @accrue transaction sit in the annotation
+		o = opts[len(opts)-1-r.Intn(4)]
+	}
+	o.do()
+	return strings.Join(lines, "\n") + "\n", o.kind
+}
+
+func c02GenTextCase(r *RNG, i int) *c02TextCase {
+	o := JGenOpts{MaxAccounts: r.Range(2, 7), MaxDays: r.Range(1, 8), Unicode: true, BaseDay: 737000 + r.Intn(1500), SpanDays: Pick(r, []int{0, 5, 40, 100, 400, 800}),
+		BoundaryDates: r.Chance(1, 8), Accruals: r.Chance(1, 2), CaseVariants: true}
+	if r.Chance(1, 4) { // price declarations (they do not show in an unvalued report, but they are converted like everything else)
+		o.Prices, o.Valuation = true, "CHF"
+	}
+	j, tags := GenJournal(r, o)
+	tc := &c02TextCase{Idx: i, J: j, Tags: tags, Fault: "none", DirKind: "-", Pos: "-"}
+	tc.F = GenBalFlags(r, j, "", BalGenOpts{})
+	n := len(j.Dirs)
+	// layout: which file holds which directive
+	nf := Pick(r, []int{1, 2, 2, 3, 3, 4, 6})
+	if nf > n {
+		nf = max(1, n)
+	}
+	owner := make([]int, n)
+	lo := 0 // files lo..nf-1 hold directives (lo = 1: the main file only includes)
+	if nf > 1 && r.Chance(1, 4) {
+		lo = 1
+	}
+	if r.Bool() { // chunks in journal order
+		cuts := map[int]bool{}
+		for len(cuts) < nf-lo-1 && len(cuts) < n-1 {
+			cuts[r.Range(1, n-1)] = true
+		}
+		f := lo
+		for k := 0; k < n; k++ {
+			if cuts[k] {
+				f++
+			}
+			owner[k] = f
+		}
+	} else { // interleaved
+		for k := 0; k < n; k++ {
+			owner[k] = r.Range(lo, nf-1)
+		}
+	}
+	// the faulted directive
+	mode := r.Intn(10)
+	texts := make([]string, n)
+	for k, d := range j.Dirs {
+		texts[k] = d.Text()
+	}
+	if mode >= 2 && n > 0 {
+		var cand []int
+		if r.Bool() {
+			for k, d := range j.Dirs {
+				if d.Kind == 't' {
+					cand = append(cand, k)
+				}
+			}
+		}
+		if r.Chance(1, 5) { // a transaction with an @accrue annotation
+			var acc []int
+			for _, k := range cand {
+				if j.Dirs[k].Accrual != nil {
+					acc = append(acc, k)
+				}
+			}
+			if len(acc) > 0 {
+				cand = acc
+			}
+		}
+		if len(cand) == 0 {
+			for k := range j.Dirs {
+				cand = append(cand, k)
+			}
+		}
+		// prefer an included file two times out of three
+		if nf > 1 && r.Chance(2, 3) {
+			var inc []int
+			for _, k := range cand {
+				if owner[k] > 0 {
+					inc = append(inc, k)
+				}
+			}
+			if len(inc) > 0 {
+				cand = inc
+			}
+		}
+		f := owner[Pick(r, cand)]
+		var inFile []int
+		for _, k := range cand {
+			if owner[k] == f {
+				inFile = append(inFile, k)
+			}
+		}
+		t := Pick(r, inFile)
+		switch r.Intn(4) {
+		case 0:
+			t = inFile[0]
+		case 1:
+			t = inFile[len(inFile)-1]
+		}
+		first, last := true, true
+		for k := range j.Dirs {
+			if owner[k] == f && k < t {
+				first = false
+			}
+			if owner[k] == f && k > t {
+				last = false
+			}
+		}
+		switch {
+		case first && last:
+			tc.Pos = "only"
+		case first:
+			tc.Pos = "first"
+		case last:
+			tc.Pos = "last"
+		default:
+			tc.Pos = "mid"
+		}
+		tc.InInc = f > 0
+		tc.DirKind = string(j.Dirs[t].Kind)
+		if mode < 9 || r.Bool() {
+			texts[t], tc.Fault = c02Fault(r, j.Dirs[t], mode == 9)
+		}
+	}
+	// include tree
+	parent := make([]int, nf)
+	dir := make([]string, nf)
+	path := make([]string, nf)
+	path[0] = "main.knut"
+	items := make([][]string, nf)
+	for k := 0; k < n; k++ {
+		items[owner[k]] = append(items[owner[k]], texts[k])
+	}
+	insert := func(f int, line string) {
+		at := len(items[f])
+		switch r.Intn(3) {
+		case 0:
+			at = 0
+		case 1:
+			at = r.Intn(len(items[f]) + 1)
+		}
+		items[f] = append(items[f][:at:at], append([]string{line}, items[f][at:]...)...)
+	}
+	for f := 1; f < nf; f++ {
+		parent[f] = r.Intn(f)
+		dir[f] = dir[parent[f]]
+		if r.Chance(1, 3) {
+			dir[f] += fmt.Sprintf("d%d/", f)
+		}
+		path[f] = dir[f] + fmt.Sprintf("inc%d.knut", f)
+	}
+	for f := 1; f < nf; f++ {
+		insert(parent[f], "include \""+strings.TrimPrefix(path[f], dir[parent[f]])+"\"\n")
+	}
+	if mode == 9 && tc.Fault == "none" {
+		f := r.Intn(nf)
+		if r.Bool() {
+			insert(f, "include \""+Pick(r, []string{"nofile.knut", "missing/inc1.knut", "main.knut.bak", "inc99.knut"})+"\"\n")
+			tc.Fault = "include-unreadable"
+		} else {
+			g := f // a file includes itself or one of its ancestors
+			for g > 0 && r.Bool() {
+				g = parent[g]
+			}
+			up := strings.Repeat("../", strings.Count(dir[f], "/"))
+			insert(f, "include \""+up+path[g]+"\"\n")
+			tc.Fault = "include-cycle"
+		}
+		tc.InInc, tc.DirKind, tc.Pos = f > 0, "i", "-"
+	}
+	for f := 0; f < nf; f++ {
+		tc.Files = append(tc.Files, c02File{Path: path[f], Text: strings.Join(items[f], "\n")})
+	}
+	return tc
+}
+
+func c02FileFields(fs []c02File) []string {
+	out := make([]string, len(fs))
+	for i, f := range fs {
+		out[i] = Hex(f.Path) + ":" + Hex(f.Text)
+	}
+	return out
+}
+
+func runC02Text(c *Ctx) {
+	const stream = "baltext"
+	n := c.N(1500, 15000)
+	root := filepath.Join(c.WorkDir, stream)
+	os.MkdirAll(root, 0o755)
+	var cases []*c02TextCase
+	for i := 0; i < n; i++ {
+		if c.Want(stream, i) {
+			cases = append(cases, c02GenTextCase(c.Rng(stream, i), i))
+		}
+	}
+	parallelFor(len(cases), 16, func(k int) {
+		tc := cases[k]
+		dir := filepath.Join(root, fmt.Sprintf("c%d", tc.Idx))
+		for _, f := range tc.Files {
+			p := filepath.Join(dir, filepath.FromSlash(f.Path))
+			os.MkdirAll(filepath.Dir(p), 0o755)
+			os.WriteFile(p, []byte(f.Text), 0o644)
+		}
+		args := append([]string{"balance"}, tc.F.Args()...)
+		args = append(args, filepath.Join(dir, "main.knut"))
+		tc.Code, tc.Stdout, tc.Stderr = runKnut(c.KnutBin, 20*time.Second, nil, args...)
+		os.RemoveAll(dir)
+	})
+	bt := c.NewBatch()
+	defer bt.Flush()
+	for _, tc := range cases {
+		tc := tc
+		c.Evals++
+		impl := tc.implOutcome()
+		in := tc.Input()
+		where := "main"
+		if tc.InInc {
+			where = "included"
+		}
+		c.Class(fmt.Sprintf("c02text/%s/%s/%s/%s/%s/files%d", strings.Fields(impl)[0], tc.Fault, tc.DirKind, tc.Pos, where, len(tc.Files)))
+		c.Tag("baltext:" + tc.Fault + ":" + strings.Fields(impl)[0])
+		c.Tag("baltext-at:" + tc.DirKind + "/" + tc.Pos + "/" + where)
+		if tc.Idx < 2 {
+			c.Sample(map[string]any{"args": in["args"], "files": in["files"], "fault": tc.Fault, "exit": tc.Code, "stdout": tc.Stdout, "stderr": clip(tc.Stderr)})
+		}
+		show := func(f *Finding, model string) {
+			if strings.HasPrefix(model, "ok ") {
+				f.Model = clip(UnHex(strings.TrimPrefix(model, "ok ")))
+			}
+			f.Impl = clip(fmt.Sprintf("exit %d\n%s\n%s", tc.Code, tc.Stdout, tc.Stderr))
+		}
+		files := c02FileFields(tc.Files)
+		bt.Add(func(model string) {
+			if !c.Compare(stream, tc.Idx, "c02text", in, impl, modelOutcomeCanon(model)) {
+				show(&c.Findings[len(c.Findings)-1], model)
+			}
+		}, append([]string{"c02text", tc.F.Wire(today())}, files...)...)
+		detail := func(spec string) string {
+			d := fmt.Sprintf("fault in the text: %s\nreal command: exit %d\n%s%s\nledger specification:\n", tc.Fault, tc.Code, tc.Stdout, tc.Stderr)
+			if strings.HasPrefix(spec, "ok ") {
+				return d + UnHex(strings.TrimPrefix(spec, "ok "))
+			}
+			return d + spec
+		}
+		bt.Add(func(spec string) {
+			if spec == "unsupported" {
+				return
+			}
+			ok := impl == modelOutcomeCanon(spec)
+			d := ""
+			if !ok {
+				d = detail(spec)
+			}
+			c.Monitor(stream, tc.Idx, "report_equals_ledger", in, ok, d)
+		}, append([]string{"c02text-spec", tc.F.Wire(today())}, files...)...)
+		// whatever the command accepts, it reports in full: the ledger of every directive of the text, taken from the generator's
+		// own journal (the faults above garble a directive, they never take its bookings out of the text)
+		bt.Add(func(spec string) {
+			if spec == "unsupported" {
+				return
+			}
+			ok := tc.Code != 0 || impl == modelOutcomeCanon(spec)
+			d := ""
+			if !ok {
+				d = detail(spec)
+			}
+			c.Monitor(stream, tc.Idx, "accepted_report_has_all_bookings", in, ok, d)
+		}, "balance-spec", tc.F.Wire(today()), tc.J.Wire())
 	}
 }
